@@ -184,6 +184,12 @@ def generate(rng, tier):
         yield "amf0 enc 1 S%s" % hexs(s)
         yield "amf0 enc 2 T O2 61 N%016x %s A1 S%s" % (rng.next(), hexs(s), hexs(b"tail"))
     yield "amf0 enc 1 O2 %s Z - T" % hexs(b"a" * 65536)      # two different refusals in one object
+    # --- element / property counts around powers of two and decimal round numbers (a decoder that caps or truncates a count) ---
+    for n in (255, 256, 257, 1000, 1023, 1024, 1025, 3000, 4096, 4097, 65535, 65536, 65537):
+        yield "amf0 enc " + show_all([("A", [("Z",)] * n), ("Z",)])
+        if n <= 4097:
+            yield "amf0 enc " + show_all([("O", [(b"k", ("A", [("N", rng.next())] * n)), (b"t", ("S", b"tail"))]), ("B", True)])
+            yield "amf0 enc " + show_all([("O", [(("p%d" % j).encode(), ("B", j % 2 == 0)) for j in range(n)])])
     for i in range(n_enc):
         vs = [rand_value(rng, rng.below(5)) for _ in range(rng.range(0, 4))]
         if rng.chance(1, 40):      # sprinkle an inexpressible name / string deep inside
@@ -218,6 +224,13 @@ def generate(rng, tier):
             yield "amf0 decm 0a%s%s" % (c4, tail)
             yield "amf0 decm 08%s00016105%s" % (c4, "000009" if tail else "")
             yield "amf0 decm 0300016b0a%s%s" % (c4, tail)
+    # every marker byte followed by a huge 32-bit / 16-bit length claim, at top level, in an array and as a property value
+    for m in range(256):
+        for claim in ("ffffffff", "7fffffff", "01000000", "ffff"):
+            yield "amf0 decm %02x%s" % (m, claim)
+            yield "amf0 decm %02x%s6161" % (m, claim)
+        yield "amf0 decm 0a00000001%02xffffffff" % m
+        yield "amf0 decm 0300016b%02xffffffff" % m
     for ln in (0, 1, 2, 65535):
         yield "amf0 decm 02%04x" % ln + "61" * min(ln, 3)
         yield "amf0 decm 03%04x" % ln + "61" * min(ln, 3)
